@@ -5,7 +5,7 @@
 # Exit 0: property held on everything explored. Exit 1 + "VIOLATION property=<id> replay=<path>".
 # Exit 2: harness fault (build failure, nondeterminism gate) - never with a VIOLATION line.
 ID="$1"; TIER="${2:-${VERIF_TIER:-quick}}"
-cd /verif || exit 2
+cd "$(dirname "$0")/.." || exit 2
 case "$ID" in
   C14) FLAVOURS="tsan asan" ;;
   *) FLAVOURS="asan" ;;
@@ -16,7 +16,7 @@ RC=0
 PARTS=""
 for F in $FLAVOURS; do
   if ! make -j16 F=$F one > "out/build-$F.log" 2>&1; then
-    echo "build failed (flavour $F), see /verif/out/build-$F.log"; tail -20 "out/build-$F.log"; exit 2
+    echo "build failed (flavour $F), see out/build-$F.log"; tail -20 "out/build-$F.log"; exit 2
   fi
   ./build/$F/blocsim run "$ID" --tier "$TIER" --evidence "out/evidence-$ID-$F.json" --out out
   R=$?
